@@ -124,6 +124,23 @@ Chunks(f, i) ==      \* sequence of [type, data, crc] from offset i; ok = FALSE 
        IF i + 11 + n > Len(f) THEN [ok |-> FALSE, cs |-> <<>>]
        ELSE LET rest == Chunks(f, i + 12 + n) IN
             [ok |-> rest.ok, cs |-> <<[type |-> SubSeq(f, i + 4, i + 7), data |-> SubSeq(f, i + 8, i + 7 + n), crc |-> SubSeq(f, i + 8 + n, i + 11 + n)]>> \o rest.cs]
+(* Scanline reconstruction (PNG specification, section 9: filter types 0 None, 1 Sub, 2 Up, 3 Average, 4 Paeth). *)
+AbsI(x) == IF x < 0 THEN 0 - x ELSE x
+Paeth(a, b, c) == LET p == a + b - c pa == AbsI(p - a) pb == AbsI(p - b) pc == AbsI(p - c) IN
+                  IF pa <= pb /\ pa <= pc THEN a ELSE IF pb <= pc THEN b ELSE c
+UnfilterRow(ft, row, prior, bpp) ==      \* row, prior: sequences of rowlen bytes; result: reconstructed row
+  FoldLeft(LAMBDA acc, i :
+             LET a == IF i > bpp THEN acc[i - bpp] ELSE 0
+                 b == prior[i]
+                 c == IF i > bpp THEN prior[i - bpp] ELSE 0
+                 pred == CASE ft = 0 -> 0 [] ft = 1 -> a [] ft = 2 -> b [] ft = 3 -> (a + b) \div 2 [] OTHER -> Paeth(a, b, c) IN
+             Append(acc, (row[i] + pred) % 256),
+           <<>>, [i \in 1..Len(row) |-> i])
+Unfilter(inflated, rowlen, h, bpp) ==
+  LET step(acc, y) == LET base == y * (rowlen + 1)
+                          rec == UnfilterRow(inflated[base + 1], SubSeq(inflated, base + 2, base + 1 + rowlen), acc.prior, bpp) IN
+                      [out |-> acc.out \o rec, prior |-> rec] IN
+  FoldLeft(step, [out |-> <<>>, prior |-> [i \in 1..rowlen |-> 0]], [y \in 1..h |-> y - 1]).out
 PNGOk(f, inflated, img) ==
   /\ Len(f) >= 8 /\ SubSeq(f, 1, 8) = PngSig
   /\ LET c == Chunks(f, 9) IN
@@ -136,9 +153,10 @@ PNGOk(f, inflated, img) ==
      /\ LET idat == {k \in DOMAIN c.cs : c.cs[k].type = <<73, 68, 65, 84>>} IN
         idat # {} /\ \A a, b \in idat : \A k \in a..b : k \in idat                    \* IDAT chunks are consecutive
      /\ \A k \in DOMAIN c.cs : k > 1 /\ k < Len(c.cs) => c.cs[k].type # <<73, 72, 68, 82>> /\ c.cs[k].type # <<73, 69, 78, 68>>
-  /\ LET rowlen == img.w * (IF img.alpha THEN 4 ELSE 3) IN
+  /\ LET bpp == IF img.alpha THEN 4 ELSE 3
+         rowlen == img.w * bpp IN
      /\ Len(inflated) = img.h * (rowlen + 1)
-     /\ \A y \in 0..(img.h - 1) : inflated[y * (rowlen + 1) + 1] = 0
-                                  /\ SubSeq(inflated, y * (rowlen + 1) + 2, (y + 1) * (rowlen + 1)) = SubSeq(img.raw, y * rowlen + 1, (y + 1) * rowlen)
+     /\ \A y \in 0..(img.h - 1) : inflated[y * (rowlen + 1) + 1] \in 0..4
+     /\ Unfilter(inflated, rowlen, img.h, bpp) = img.raw
 SameImage(a, b) == a.w = b.w /\ a.h = b.h /\ a.alpha = b.alpha /\ a.cw = b.cw /\ a.raw = b.raw
 =============================================================================
